@@ -23,6 +23,19 @@ claim("C01", "exploration",
       "(one per transfer with receive-once off) with byte-exact content and metadata, no failed writer, nothing else delivered; objects the wire format cannot carry must be refused. "
       "A hang is a violation (watchdog). Open findings are excluded by signature (counted) and pinned.",
       "DESIGN.md section 4 C01")
+claim("C02", "fault_enumeration",
+      "exhaustive enumeration of all loss subsets of small generated sessions + proptest-sampled loss/duplication patterns; oracle = the property's premise evaluated by an independent RFC labelling of the packets (recoverable => exactly one byte-exact completion)",
+      "Sessions come from the small-session generator (scheme x k<=6 x parity<=3 x 1-4 equal/unequal blocks x interleave x in-band/FDT-only OTI x 1-2 transfers x FDT of 1-3 symbols). For every session with "
+      "|P|<=12 (quick) / 15 (thorough) ALL 2^|P| subsets are delivered in order (exhaustive per session); larger sessions and the FDT-carousel family are sampled with loss and duplication. Packets are "
+      "labelled by the harness' own decoder; whenever an FDT instance listing the object and k symbols per block (RS) / all source symbols (others) arrive, exactly one byte-exact completion and no failed "
+      "writer is demanded. Open findings (B flag before the FDT, completed-registry GC) are excluded by signature and counted.",
+      "DESIGN.md section 4 C02")
+claim("C03", "fault_enumeration",
+      "exhaustive enumeration of all orderings of tiny generated sessions + proptest-generated delivery histories (sub-multisets, any order, stale carousel packets, payload edits under MD5); safety invariant over the history observed through a monitoring writer",
+      "For every generated session with |P|<=7 (quick) / 8 (thorough) ALL |P|! orderings are delivered (exhaustive per session); larger multi-transfer and carousel sessions get arbitrary sub-multisets in "
+      "arbitrary order, including packets of earlier cycles after later ones, and - only when a Content-MD5 is announced and checked - bit flips, truncations, extensions and payload swaps on object packets. "
+      "Invariant: a writer that receives complete has received exactly the sender's bytes, and no writer instance leaves the open/write*/terminal protocol (never complete and error).",
+      "DESIGN.md section 4 C03")
 claim("C04", "exploration",
       "exhaustive enumeration of all datagrams of <=3 bytes and of all single-byte header substitutions over a corpus of valid sessions, plus proptest-generated mutation sequences (field-aware edits through an independent codec, foreign FDT instances); oracle inside the target: no panic/overflow, watchdog, per-thread heap bound, usability probe",
       "Every byte string of length <=3 (16.8 M) and every single-byte substitution in the header region of every packet of a corpus of valid sessions (all schemes, signalling modes, cenc, shapes) "
